@@ -44,7 +44,7 @@ func (k Keeper) DefaultDenom(ctx sdk.Context) string {
 }
 
 func (k Keeper) CheckIfAllowedPermission(ctx sdk.Context, addr sdk.AccAddress, permValue govtypes.PermValue) bool {
-	return govkeeper.CheckIfAllowedPermission(ctx, k.gk, addr, govtypes.PermHandleBasketEmergency)
+	return govkeeper.CheckIfAllowedPermission(ctx, k.gk, addr, permValue)
 }
 
 func (k Keeper) IsAllowedAddress(ctx sdk.Context, address sdk.AccAddress, permInfo types.Controllers) bool {
